@@ -214,7 +214,7 @@ the specification's own `stepFn` for every value.  It is cross-checked against `
 small enough for both (`specSide`: all the small streams, hundreds of cases per run), never trusted alone. -/
 open PdtVerif.Ctc in
 def specStepFast (facts : Bool) (V : Nat) (f : Frame) (w : Nat) (k : List (List Nat)) (bm : Beam) :
-    Beam × (Bool × Bool × Nat × Nat) :=
+    Beam × (Bool × Bool × Nat × Nat) × (Rat × Rat) :=
   let hm : Std.HashMap (List Nat) (Rat × Rat) := bm.foldl (fun m e => m.insertIfNew e.1 e.2) {}
   let S : List Nat → Rat × Rat := fun p => hm.getD p (0, 0)
   let cset : Std.HashSet (List Nat) := (cands V bm).foldl (fun s p => s.insert p) {}
@@ -224,7 +224,7 @@ def specStepFast (facts : Bool) (V : Nat) (f : Frame) (w : Nat) (k : List (List 
   let kinSet : Std.HashSet (List Nat) := kin.foldl (fun s p => s.insert p) {}
   let nkeep := kinSet.size
   let pruned := decide (nkeep < ncands)
-  if !facts then (next, (true, pruned, ncands, nkeep)) else
+  if !facts then (next, (true, pruned, ncands, nkeep), (0, 0)) else
   -- isTopKB, every candidate total computed once
   let tot : List Nat → Rat := fun p => let x := stepFn V f S p; x.1 + x.2
   let kAll : Std.HashSet (List Nat) := k.foldl (fun s p => s.insert p) {}
@@ -232,17 +232,27 @@ def specStepFast (facts : Bool) (V : Nat) (f : Frame) (w : Nat) (k : List (List 
   let rec sorted : List Rat → Bool
     | a :: b :: r => decide (b ≤ a) && sorted (b :: r)
     | _ => true
-  let best : Bool := match kt with
-    | [] => true
+  -- the largest excess of a dropped candidate's total over the smallest kept total (every total computed once)
+  let excess : Rat := match kt with
+    | [] => 0
     | x :: r =>
       let m := r.foldl min x
-      cset.fold (fun acc p => acc && (kAll.contains p || decide (tot p ≤ m))) true
+      cset.fold (fun acc p => if kAll.contains p then acc else max acc (tot p - m)) 0
+  let best : Bool := decide (excess ≤ 0)
   let ok := kAll.size == k.length && k.all (fun p => cset.contains p)
     && k.length == min w ncands && sorted kt && best
-  (next, (ok, pruned, ncands, nkeep))
+  -- for the tolerance streams: BY HOW MUCH the survivors fail to be the best (0 = they are): that excess / the
+  -- largest excess of a later kept total over an earlier one; and the largest kept total (the scale the
+  -- harness's tolerance refers to)
+  let rec unsorted : List Rat → Rat
+    | a :: b :: r => max (b - a) (unsorted (b :: r))
+    | _ => 0
+  let viol : Rat := max excess (max 0 (unsorted kt))
+  (next, (ok, pruned, ncands, nkeep), (viol, kt.foldl max 0))
 
 def specGoFast (facts : Bool) (V : Nat) : List (PdtVerif.Ctc.Frame × Nat) → List (List (List Nat)) → PdtVerif.Ctc.Beam →
-    List (Bool × Bool × Nat × Nat) → PdtVerif.Ctc.Beam × List (Bool × Bool × Nat × Nat)
+    List ((Bool × Bool × Nat × Nat) × (Rat × Rat)) →
+    PdtVerif.Ctc.Beam × List ((Bool × Bool × Nat × Nat) × (Rat × Rat))
   | (f, w) :: fs, k :: ks, bm, acc =>
     let r := specStepFast facts V f w k bm
     specGoFast facts V fs ks r.1 (acc ++ [r.2])
@@ -305,7 +315,8 @@ def specSide (V : Nat) (specFrames : List PdtVerif.Ctc.Frame) (widths : List Nat
   -- `topk_ok` (is the implementation's choice of survivors a legitimate top-K of the candidate totals?) needs the
   -- total of EVERY candidate; the tolerance streams do not use it (there the model's `isTopK` is measured with a
   -- tolerance instead), so the size classes of those streams skip it
-  let (beam, info) := specGoFast (wantTopk || literal) V (specFrames.zip widths) keeps beam0 []
+  let (beam, infoV) := specGoFast (wantTopk || literal) V (specFrames.zip widths) keeps beam0 []
+  let info := infoV.map (·.1)
   if literal then
     let (beam', info') := specGo V (specFrames.zip widths) keeps beam0 []
     if beam' != beam || info' != info then
@@ -340,9 +351,11 @@ def specSide (V : Nat) (specFrames : List PdtVerif.Ctc.Frame) (widths : List Nat
   return objJ [
     ("beam", listJ (fun (e : List Nat × (Rat × Rat)) =>
         objJ [("p", prefJ e.1), ("nb", ratToJson e.2.1), ("b", ratToJson e.2.2)]) beam),
-    ("frames", listJ (fun (x : Bool × Bool × Nat × Nat) =>
+    ("frames", listJ (fun (y : (Bool × Bool × Nat × Nat) × (Rat × Rat)) =>
+        let x := y.1
         objJ [("topk_ok", boolJ x.1), ("pruned", boolJ x.2.1), ("ncands", natJ x.2.2.1),
-              ("nkeep", natJ x.2.2.2)]) info),
+              ("nkeep", natJ x.2.2.2), ("topk_viol", ratToJson y.2.1), ("topk_scale", ratToJson y.2.2),
+              ("topk_checked", boolJ (wantTopk || literal))]) infoV),
     ("mass", if wantMass then massJ table else match dp with
       | some l => massJ l
       | none => Json.null),
